@@ -189,6 +189,52 @@ Example C08_batch_witnesses :
     = Ok [ustr "Baz"%string; ustr "Bar"%string].
 Proof. exact batch_witnesses. Qed.
 
+(* Every named entry CREATED by one call on a fresh type space -- definition
+   keys, the titled root, patch renames AND the derived names of inline object
+   properties (lib.rs created_names check, fix 40183ea) -- has its own name, or
+   Err.  `defs` / `root` carry, for each definition, the names of its properties
+   with an inline (titleless) object schema. *)
+Theorem C08_created_distinct_or_err :
+  forall cls (patch : list (ustring * ustring)) (defs : list (ustring * list ustring))
+         (root : option (ustring * list ustring)) ids,
+    add_batch_full cls patch defs root = Ok ids ->
+    NoDup ids /\ ids = created_names cls patch defs root.
+Proof. exact add_batch_full_distinct_or_err. Qed.
+
+(* without inline types this is add_batch *)
+Theorem C08_created_plain :
+  forall cls (patch : list (ustring * ustring)) (defs : list ustring) (title : option ustring),
+    add_batch_full cls patch (List.map (fun d => (d, [])) defs) (option_map (fun t => (t, [])) title)
+    = add_batch cls patch defs title.
+Proof. exact add_batch_full_plain. Qed.
+
+(* former finding C08-F5: root name / later definition name equal to the derived
+   name of an inline type of a definition of the same call is rejected *)
+Theorem C08_created_err_root_vs_derived :
+  forall cls (patch : list (ustring * ustring)) (defs : list (ustring * list ustring))
+         (d : ustring) (ps : list ustring) (p t : ustring) (tps : list ustring),
+    In (d, ps) defs -> In p ps ->
+    derived_name cls patch d p = type_patch patch (sanitize cls t Pascal) ->
+    add_batch_full cls patch defs (Some (t, tps)) = Err.
+Proof. exact add_batch_full_err_root_vs_derived. Qed.
+
+Theorem C08_created_err_key_vs_derived :
+  forall cls (patch : list (ustring * ustring)) l1 (d : ustring) (ps : list ustring) l2
+         (d2 : ustring) (ps2 : list ustring) l3 (p : ustring) root,
+    In p ps ->
+    derived_name cls patch d p = type_patch patch (sanitize cls d2 Pascal) ->
+    add_batch_full cls patch (l1 ++ (d, ps) :: l2 ++ (d2, ps2) :: l3) root = Err.
+Proof. exact add_batch_full_err_key_vs_derived. Qed.
+
+Example C08_created_witnesses :
+  add_batch_full ascii_classes [] [(ustr "Foo"%string, [ustr "bar"%string])] (Some (ustr "foo bar"%string, [])) = Err /\
+  add_batch_full ascii_classes [] [(ustr "Foo"%string, [ustr "bar"%string]); (ustr "FooBar"%string, [])] None = Err /\
+  add_batch_full ascii_classes [] [(ustr "Foo"%string, [ustr "bar"%string])] (Some (ustr "foo bar q"%string, []))
+    = Ok [ustr "FooBar"%string; ustr "Foo"%string; ustr "FooBarQ"%string] /\
+  add_batch_full ascii_classes [] [(ustr "ZooBar"%string, []); (ustr "zoo"%string, [ustr "bar"%string])] None
+    = Ok [ustr "ZooBar"%string; ustr "Zoo"%string].
+Proof. exact batch_full_witnesses. Qed.
+
 (* non-vacuity: the class hypotheses are satisfiable, and both the X fallback
    and the panic of the variant algorithm are reachable *)
 Theorem C08_classes_satisfiable : ClassesOK ascii_classes.
